@@ -51,6 +51,18 @@ class TensorDecoder(json.JSONDecoder):
         return dic
 
 
+def restore_int_keys(dic: dict) -> dict:
+    """Return a copy of dic in which keys spelling an integer are integers again.
+
+    json.dump writes every dictionary key as a string; state dictionaries keyed by
+    integers (e.g. the state of a torch optimizer) need them back after json.load.
+    """
+    return {
+        int(key) if isinstance(key, str) and re.fullmatch(r'-?[0-9]+', key) else key: value
+        for key, value in dic.items()
+    }
+
+
 def as_tensor(dct, dtype=torch.float64):
     if 'type' in dct and dct['type'].startswith('torch'):
         return torch.tensor(dct['values'], dtype=dtype)
